@@ -192,13 +192,14 @@ impl CliOut {
 pub fn shim_path() -> PathBuf {
     std::env::var("VERIF_SHIM")
         .map(PathBuf::from)
-        .unwrap_or_else(|_| PathBuf::from("/verif/.build/libfsfault.so"))
+        .unwrap_or_else(|_| crate::harness::verif_root().join(".build/libfsfault.so"))
 }
 
+/// directory of the binaries under test: next to this executable
 pub fn bin_dir() -> PathBuf {
     std::env::var("VERIF_BIN_DIR")
         .map(PathBuf::from)
-        .unwrap_or_else(|_| PathBuf::from("/verif/.build/target/debug"))
+        .unwrap_or_else(|_| std::env::current_exe().ok().and_then(|e| e.parent().map(|p| p.to_path_buf())).unwrap_or_else(|| PathBuf::from("/verif/.build/target/debug")))
 }
 
 static WORLD_CTR: AtomicU64 = AtomicU64::new(0);
